@@ -309,7 +309,9 @@ class History(object):
         weid, prefixes = we
         if self.opts.get("api_variants") and E.flag(n + ".nocheck"):
             E.reach("variant:delete-nocheck")
-            ok, res = E.call("delete_webentity", self.t.delete_webentity, weid, list(prefixes), check_for_corruption=False)
+            # the id is documented as ignored when the consistency check is off
+            some_id = [weid, None, weid + 7][E.choose(n + ".anyid", 3)]
+            ok, res = E.call("delete_webentity", self.t.delete_webentity, some_id, list(prefixes), check_for_corruption=False)
         else:
             ok, res = E.call("delete_webentity", self.t.delete_webentity, weid, list(prefixes))
         E.check(ok, "delete_webentity:refused", "deleting a webentity with its own prefix list was refused")
